@@ -28,6 +28,12 @@ RULE = (
     "index, known divisions; 30 % with every input in one partition), join inner/outer, interleave_partitions, "
     "ignore_unknown_divisions, optionally (28 %) followed by the selection of the first/last result column; zero-row "
     "inputs only as a rare stratum (6-10 % of the concat cases). "
+    "Operands as results of programs: in about half of the merge cases one or both operands (concat: each input with 20 %) first "
+    "run 1-3 steps: filter with a boolean combination of 2-3 comparisons/isin (a, a&b, a|b, (a&b)|(a&c), (a&b)|c, (a|b)&(a|c), "
+    "~(a|b), (a&b)&c), projection that keeps the keys, assign of a new/overwritten payload column, and (merge only) "
+    "shuffle(on the join keys, npartitions, max_branch) and repartition(npartitions=n | the other operand's count), incl. the "
+    "stratum 'shuffle on the join keys, then repartition'; pandas applies the same filter/projection/assign (shuffle and "
+    "repartition do not change the rows). "
     "Non-trivial: both sides have >= 2 partitions, a duplicated key occurs on both sides (many-to-many) and some key is "
     "missing on one side."
 )
@@ -36,6 +42,7 @@ ASSUMPTIONS = [
     "dtype differences are accepted only when dask's own _meta announces the computed dtype (empty-partition upcasts)",
     "leftsemi reference: rows of left whose key tuple occurs in right (pandas inner merge against right's distinct keys)",
     "merge_asof inputs are sorted by the asof key and contain no missing keys, as pandas requires",
+    "shuffle/repartition steps applied to an operand before the join change only the partitioning, never the rows: the pandas reference ignores them",
     "the lowering strategy (hash / broadcast-left|right / blockwise) is read from the optimized expression only to label failures and evidence counters; it never enters the oracle",
 ]
 TECHNIQUE = "differential testing against pandas.merge / merge_asof / concat on the unpartitioned frames"
@@ -54,6 +61,142 @@ def _build(spec):
     if spec.get("sort_index", True) and not pdf.index.is_monotonic_increasing:
         pdf = pdf.sort_index(kind="stable")
     return pdf, C.build_ddf(spec, pdf)
+
+
+# --------------------------------------------------------------------------
+# "pre" programs: steps applied to an input BEFORE it is merged/concatenated, so that the join is lowered and optimized
+# together with what produced its operands (filters with AND/OR predicates, projections, assigns: optimizer rules that
+# rebuild their parent; shuffle/repartition: partitioning knowledge that Merge._lower trusts).  Every step is
+# row-preserving or has an obvious pandas twin; shuffle/repartition are no-ops for pandas (row multisets are compared).
+_CMP = {"gt": "__gt__", "lt": "__lt__", "ge": "__ge__", "le": "__le__", "ne": "__ne__", "eq": "__eq__"}
+
+
+def _pred(node, f):
+    t = node[0]
+    if t == "and":
+        return _pred(node[1], f) & _pred(node[2], f)
+    if t == "or":
+        return _pred(node[1], f) | _pred(node[2], f)
+    if t == "not":
+        return ~_pred(node[1], f)
+    if t == "cmp":
+        return getattr(f[node[1]], _CMP[node[2]])(node[3])
+    if t == "isin":
+        return f[node[1]].isin(list(node[2]))
+    raise ValueError(t)
+
+
+def _expr(node, f):
+    t = node[0]
+    if t == "add":
+        return f[node[1]] + node[2]
+    if t == "mul":
+        return f[node[1]] * node[2]
+    if t == "colsum":
+        return f[node[1]] + f[node[2]]
+    raise ValueError(t)
+
+
+def _apply_pre(pdf, ddf, steps, other_n=None):
+    """Returns (pdf, ddf, flags); flags['shuffle_then_fewer'] = a hash shuffle was followed by a repartition to FEWER
+    partitions (input class of a known finding; read off the collections, never part of the oracle)."""
+    flags = {"shuffle_then_fewer": False}
+    shuffled = False
+    for s in steps:
+        k = s["op"]
+        if k == "shuffle":
+            kw = {"npartitions": s.get("npartitions")}
+            if s.get("max_branch"):
+                kw["max_branch"] = s["max_branch"]
+            ddf = ddf.shuffle(s["on"], shuffle_method="tasks", **kw)
+            shuffled = True
+        elif k == "repartition":
+            n = s["npartitions"]
+            n = (other_n or 2) if n == "other" else n
+            if shuffled and n < ddf.npartitions:
+                flags["shuffle_then_fewer"] = True
+            ddf = ddf.repartition(npartitions=n)
+        elif k == "filter":
+            pdf, ddf = pdf[_pred(s["pred"], pdf)], ddf[_pred(s["pred"], ddf)]
+        elif k == "project":
+            pdf, ddf = pdf[s["cols"]], ddf[s["cols"]]
+        elif k == "assign":
+            pdf, ddf = pdf.assign(**{s["name"]: _expr(s["expr"], pdf)}), ddf.assign(**{s["name"]: _expr(s["expr"], ddf)})
+        else:
+            raise ValueError(k)
+    return pdf, ddf, flags
+
+
+def _pre_label(*programs):
+    ops = sorted({s["op"] for p in programs for s in p})
+    return "+".join(ops) if ops else "none"
+
+
+_LEAF_VALUES = {"int": [-20, 0, 20], "key": [0, 1, 2], "keyna": [0, 1, 2], "float": [-5.0, 0.0, 5.0]}
+
+
+@st.composite
+def _leaf(draw, kinds, cols):
+    ok = [c for c in cols if kinds.get(c) in _LEAF_VALUES or kinds.get(c) == "str"]
+    c = draw(st.sampled_from(ok))
+    if kinds[c] == "str":
+        return ["isin", c, draw(st.sampled_from([["a", "b"], ["", "ab", "foo"], ["b"]]))]
+    if kinds[c] in ("key", "keyna") and draw(st.integers(0, 3)) == 0:
+        return ["isin", c, draw(st.sampled_from([[0, 2], [1], [0, 1, 5]]))]
+    return ["cmp", c, draw(st.sampled_from(["gt", "gt", "lt", "ge", "le", "ne", "eq"])), draw(st.sampled_from(_LEAF_VALUES[kinds[c]]))]
+
+
+@st.composite
+def predicate(draw, kinds, cols):
+    """Boolean combinations of 2-3 leaves; the shapes include disjunctions of conjunctions that SHARE a term
+    ((A&B)|(A&C): the optimizer factors A out and rebuilds the consumer of the filter)."""
+    a, b, c = (draw(_leaf(kinds, cols)) for _ in range(3))
+    shape = draw(st.sampled_from(["a", "and", "or", "or-of-and-shared", "or-of-and-shared", "or-of-and", "and-of-or", "not-or", "and-and"]))
+    return {
+        "a": a, "and": ["and", a, b], "or": ["or", a, b],
+        "or-of-and-shared": ["or", ["and", a, b], ["and", a, c]],
+        "or-of-and": ["or", ["and", a, b], c],
+        "and-of-or": ["and", ["or", a, b], ["or", a, c]],
+        "not-or": ["not", ["or", a, b]],
+        "and-and": ["and", ["and", a, b], c],
+    }[shape]
+
+
+@st.composite
+def pre_program(draw, fs, keep=(), shuffle_on=None, partitioning=True, max_steps=3):
+    """1-3 steps for the frame spec ``fs``; columns in ``keep`` are never dropped or overwritten; ``shuffle_on``: the
+    join keys (a shuffle on exactly these columns is what Merge._lower recognises as 'already partitioned')."""
+    kinds = {c["name"]: c["kind"] for c in fs["columns"]}
+    cols = [c["name"] for c in fs["columns"]]
+    steps = []
+    menu = ["filter", "filter", "filter", "project", "assign"] + (["shuffle", "repartition"] if partitioning else [])
+    for _ in range(draw(st.integers(1, max_steps))):
+        k = draw(st.sampled_from(menu))
+        numeric = [c for c in cols if kinds.get(c) in ("int", "key", "float", "keyna")]
+        if k == "filter" and any(kinds.get(c) in _LEAF_VALUES or kinds.get(c) == "str" for c in cols):
+            steps.append({"op": "filter", "pred": draw(predicate(kinds, cols))})
+        elif k == "project":
+            free = [c for c in cols if c not in keep]
+            if len(free) >= 1 and len(cols) >= 2:
+                drop = draw(st.sampled_from(free))
+                cols = [c for c in cols if c != drop]
+                steps.append({"op": "project", "cols": list(cols)})
+        elif k == "assign" and numeric:
+            src = draw(st.sampled_from(numeric))
+            free = [c for c in numeric if c not in keep]
+            name = draw(st.sampled_from(["z"] + free[:1]))
+            ex = draw(st.sampled_from([["add", src, 1], ["mul", src, 2], ["colsum", src, numeric[0]]]))
+            steps.append({"op": "assign", "name": name, "expr": ex})
+            if name not in cols:
+                cols.append(name)
+            floaty = {kinds[src]} | ({kinds[ex[2]]} if ex[0] == "colsum" else set())
+            kinds[name] = "float" if floaty & {"float", "keyna"} else "int"
+        elif k == "shuffle" and shuffle_on:
+            steps.append({"op": "shuffle", "on": draw(st.sampled_from([list(shuffle_on), list(shuffle_on), list(keep)[:1]])), "npartitions": draw(st.sampled_from([None, None, 3, 4, 6])),
+                          "max_branch": draw(st.sampled_from([None, None, 2]))})
+        elif k == "repartition":
+            steps.append({"op": "repartition", "npartitions": draw(st.sampled_from(["other", 1, 2, 3, 5]))})
+    return steps
 
 
 def _merge_kwargs(op):
@@ -103,12 +246,18 @@ def check_merge(spec):
     with C.quiet():
         lp, ld = _build(spec["left"])
         rp, rd = _build(spec["right"])
+        nl, nr = ld.npartitions, rd.npartitions
+        lp, ld, lflags = _apply_pre(lp, ld, spec["left"].get("pre", []), other_n=nr)
+        rp, rd, rflags = _apply_pre(rp, rd, spec["right"].get("pre", []), other_n=nl)
         if op["mode"] == "left_on":
             ren = {k: "r" + k for k in op["keys"]}
             rp, rd = rp.rename(columns=ren), rd.rename(columns=ren)
     kw = _merge_kwargs(op)
     how = op["how"]
     sig = dict(op="merge", how=how, mode=op["mode"], broadcast=str(op["broadcast"]), method=op["method"])
+    # input-class labels: which kinds of steps produced the operands; was a hash shuffle followed by a repartition to fewer partitions
+    sig["pre"] = _pre_label(spec["left"].get("pre", []), spec["right"].get("pre", []))
+    sig["shuffle_then_fewer"] = lflags["shuffle_then_fewer"] or rflags["shuffle_then_fewer"]
     with C.quiet():
         if how == "leftsemi":
             lk = op["keys"]
@@ -154,6 +303,21 @@ def cls_merge(spec):
     yield "keykind-" + spec["left"]["columns"][0]["kind"] + "/" + spec["right"]["columns"][0]["kind"]
     for side in ("left", "right"):
         yield side + "-" + spec[side]["partition"]["how"] + ("-cleared" if spec[side]["partition"].get("clear") else "")
+    yield from _cls_pre([spec["left"].get("pre", []), spec["right"].get("pre", [])])
+
+
+def _cls_pre(programs):
+    if not any(programs):
+        yield "pre-none"
+    for prog in programs:
+        ops = [s["op"] for s in prog]
+        for o in sorted(set(ops)):
+            yield "pre-" + o
+        if "shuffle" in ops and "repartition" in ops[ops.index("shuffle"):]:
+            yield "pre-shuffle-then-repartition"
+        for s in prog:
+            if s["op"] == "filter" and s["pred"][0] == "or" and s["pred"][1][0] == "and" and s["pred"][2][0] == "and":
+                yield "pre-filter-or-of-and-shared"
 
 
 @st.composite
@@ -201,6 +365,18 @@ def merge_case(draw):
         "method": draw(st.sampled_from(["tasks", "tasks", "disk"])),
         "npartitions": draw(st.sampled_from([None, None, 1, 3])),
     }
+    # ~45 % of the cases: one or both operands are the result of a small program
+    which = draw(st.sampled_from(["none", "none", "none", "none", "none", "left", "left", "right", "right", "both", "shuffle-repartition"]))
+    skeys = keys if mode in ("on", "left_on") else ["k0"]
+    if which in ("left", "both"):
+        left["pre"] = draw(pre_program(left, keep=("k0", "k1"), shuffle_on=skeys))
+    if which in ("right", "both"):
+        right["pre"] = draw(pre_program(right, keep=("k0", "k1"), shuffle_on=skeys))
+    if which == "shuffle-repartition":
+        # one operand hash-shuffled on the join keys, then coalesced (often to the partition count of the other operand)
+        side = draw(st.sampled_from([left, right]))
+        side["pre"] = [{"op": "shuffle", "on": list(skeys), "npartitions": draw(st.sampled_from([None, 4, 6])), "max_branch": None},
+                       {"op": "repartition", "npartitions": draw(st.sampled_from(["other", "other", 2, 3]))}]
     return {"left": left, "right": right, "op": op}
 
 
@@ -290,11 +466,12 @@ def check_concat(spec):
 
     op = spec["op"]
     with C.quiet():
-        built = [_build(fs) for fs in spec["frames"]]
+        built = [_apply_pre(*_build(fs), fs.get("pre", [])) for fs in spec["frames"]]
     pdfs = [b[0] for b in built]
     ddfs = [b[1] for b in built]
     axis, join = op["axis"], op["join"]
-    sig = dict(op="concat", axis=axis, join=join, interleave=bool(op["interleave"]), projected=bool(op.get("project")), empty_input=any(len(p) == 0 for p in pdfs))
+    sig = dict(op="concat", axis=axis, join=join, interleave=bool(op["interleave"]), projected=bool(op.get("project")), empty_input=any(len(p) == 0 for p in pdfs),
+               pre=_pre_label(*[fs.get("pre", []) for fs in spec["frames"]]))
     if axis == 1:
         if not all(p.index.is_unique for p in pdfs) or not all(d.known_divisions for d in ddfs):
             raise Reject("axis=1 needs unique index (pandas) and known divisions (dask, documented)")
@@ -344,6 +521,7 @@ def cls_concat(spec):
     yield f"nframes-{len(spec['frames'])}"
     for f in spec["frames"]:
         yield "src-" + f["partition"]["how"] + ("-cleared" if f["partition"].get("clear") else "")
+    yield from _cls_pre([f.get("pre", []) for f in spec["frames"]])
 
 
 @st.composite
@@ -366,6 +544,9 @@ def concat_case(draw):
             fs["partition"] = draw(C.bydivs_partition(fs["nrows"]))
         elif axis == 0 and draw(st.integers(0, 9)) < 2:
             fs["partition"]["clear"] = True
+        if draw(st.sampled_from(range(10))) < 2:
+            # the input is the result of a small row-order preserving program (filter with AND/OR predicate, projection, assign)
+            fs["pre"] = draw(pre_program(fs, partitioning=False, max_steps=2))
         frames.append(fs)
     if axis == 1 and draw(st.integers(0, 9)) < 3:
         # every input in ONE partition: dask concatenates them blockwise (ConcatIndexed) instead of aligning divisions
